@@ -262,6 +262,11 @@ func verifDir() string {
 
 // Main is the entry point of every check binary.
 func Main(h *Harness) {
+	// a harness may serve as a part of another property's check (e.g. the UDP demultiplexing
+	// harness as the datagram part of C01): the driver then names the property to report under
+	if id := os.Getenv("VERIF_ID"); id != "" {
+		h.ID = id
+	}
 	tier := flag.String("tier", "quick", "quick|thorough")
 	shard := flag.String("shard", "", "i/n (worker mode)")
 	replay := flag.String("replay", "", "replay file")
